@@ -242,7 +242,7 @@ let container_case (c : case) (out : out_channel) =
     print_indexes id (Some cf) idxs out in
   if List.exists (fun l -> l = ["canon"]) c.lines then begin
     (* C14: every structure block re-serialises to the bytes it was parsed from *)
-    let pr name f = match canon_file f with
+    let pr name f = match canon_file_full f with
       | Err e -> Printf.fprintf out "%s canon %s OPEN_%s\n" c.id name (show_res_err e)
       | Ok rs -> List.iter (fun ((code, pos), okb) ->
           Printf.fprintf out "%s canon %s %s %s %s\n" c.id name (string_of_n code) (string_of_n pos) (if okb then "ok" else "DIFF")) rs in
